@@ -20,7 +20,10 @@ STAGE = [N(20, P, "stage", "dir"), N(21, 20, "d", "dir"), N(22, 21, "c", "dir"),
          N(27, OUT, "sub", "dir"), N(28, 27, "c", "dir"),
          # twins OUTSIDE the root of names that lookups end in: after an escape through "..", a trailing symlink / file of
          # that name is found next to the moved directory (a no-follow lookup that skips its checks returns it)
-         N(40, OUT, "up", "lnk", "host-link-body-1"), N(41, 27, "up", "lnk", "host-link-body-2"), N(42, 27, "f", "file"), N(43, OUT, "e", "dir"), N(44, 27, "e", "dir")]
+         N(40, OUT, "up", "lnk", "host-link-body-1"), N(41, 27, "up", "lnk", "host-link-body-2"), N(42, 27, "f", "file"), N(43, OUT, "e", "dir"), N(44, 27, "e", "dir"),
+         # a host directory whose absolute path is longer than PATH_MAX (the kernel cannot name what lives there: d_path
+         # reads of descriptors below it fail with ENAMETOOLONG), with the same twins
+         N(45, OUT, "deep", "deepchain"), N(46, 45, "up", "lnk", "host-link-body-3"), N(47, 45, "f", "file"), N(48, 45, "e", "dir")]
 
 RACE_TREES = {
     "chain": [N(5, R, "a", "dir"), N(6, 5, "b", "dir"), N(7, 6, "c", "dir"), N(8, 7, "f", "file"), N(9, R, "e", "dir")] + STAGE,
@@ -73,6 +76,11 @@ def repertoire(nodes, focus=None):
             continue
         acts.append(dict(act="rename", sp=p, sn=nm, dp=OUT, dn="moved_" + nm, prio=1))
         acts.append(dict(act="rename", sp=p, sn=nm, dp=27, dn="c2", prio=1))
+        if kinds.get(c) == "dir":
+            acts.append(dict(act="rename", sp=p, sn=nm, dp=45, dn="c3", prio=1))       # into the unnameable deep directory
+            if p != R:
+                # stays inside the root but gets shallower: later ".." steps of the walk then climb above the root
+                acts.append(dict(act="rename", sp=p, sn=nm, dp=R, dn="in_" + nm, prio=1))
         for (sp, sn, sc) in staged:
             acts.append(dict(act="exchange", sp=p, sn=nm, dp=sp, dn=sn, prio=1 if sc in (23, 27) else 0))
         if kinds.get(c) != "dir":
